@@ -23,7 +23,6 @@ FN = 'verdicts'
 NVERD = 10
 CLAUSES = ['CRepeat', 'CHashSeed', 'CProgress', 'CLogging', 'CWorkers', 'CWorkersFrom2', 'CWorkersIsolated', 'CFacade',
            'CWorkersRepeat']
-HASH_SENSITIVE_CROSSOVERS = {'one_point', 'exchange_parents_one', 'exchange_parents_both', 'subgraph'}
 
 
 # =================================================================================================
@@ -40,7 +39,16 @@ def _classify_caller():
             f = f.f_back
             continue
         if '/joblib/' in fn:
-            return 'joblib:' + fn.rsplit('/', 1)[-1] + ':' + f.f_code.co_name
+            label = 'joblib:' + fn.rsplit('/', 1)[-1] + ':' + f.f_code.co_name
+            g = f.f_back
+            for _ in range(25):     # joblib used by the adaptive mutation agent (mabwiser), not by the dispatcher
+                if g is None:
+                    break
+                gn = g.f_code.co_filename.replace('\\', '/')
+                if '/mabwiser/' in gn or '/optimisers/adaptive/' in gn:
+                    return 'agent-' + label
+                g = g.f_back
+            return label
         if '/golem/' in fn:
             return 'golem'
         return fn.rsplit('/', 2)[-1] + ':' + f.f_code.co_name
@@ -125,6 +133,25 @@ def stream_offsets(seed, uids):
     return out
 
 
+def make_optimiser(cfg):
+    """optrun.make_optimiser plus the adaptive mutation agent (cfg['agent']: default | bandit)"""
+    import optrun
+    if cfg.get('agent', 'default') == 'default':
+        return optrun.make_optimiser(cfg, None, None)
+    from golem.core.optimisers.adaptive.operator_agent import MutationAgentTypeEnum
+    from golem.core.optimisers.genetic import gp_params
+    orig = gp_params.GPAlgorithmParameters
+
+    def with_agent(*a, **kw):
+        kw['adaptive_mutation_type'] = MutationAgentTypeEnum[cfg['agent']]
+        return orig(*a, **kw)
+    optrun.GPAlgorithmParameters = with_agent          # the name optrun.make_optimiser looks up
+    try:
+        return optrun.make_optimiser(cfg, None, None)
+    finally:
+        optrun.GPAlgorithmParameters = orig
+
+
 def worker(job):
     import logging
     import random
@@ -153,9 +180,8 @@ def worker(job):
     if job['mode'] == 'class':
         import optrun
         with patch('os.urandom', urandom_spy):
-            random.seed(seed)
-            np.random.seed(seed)
-            opt, objective, gen = optrun.make_optimiser(cfg, None, None)
+            gu.set_random_seed(seed)            # numpy.random.seed + random.seed (what GOLEM(seed=) calls)
+            opt, objective, gen = make_optimiser(cfg)
             fault = job.get('callback_fault')
             calls = [0]
 
@@ -481,6 +507,11 @@ def build_groups(ctx):
     for i in range(n_single):
         rng = rng_of('single', i)
         cfg = make_config(rng, i)
+        if i % 6 == 1:
+            cfg['seed'] = 0                     # the seed value 0 is a seed like any other
+        if i % 6 == 5 and cfg['optimiser'] == 'evo':
+            cfg['agent'] = 'bandit'             # adaptive mutation agent with its own generator
+            cfg['num_of_generations'] = max(cfg['num_of_generations'], 4)
         g = {'name': 's%d' % i, 'family': 'single', 'cfg': cfg, 'runs': []}
         if cfg['optimiser'] in POPULATIONAL and i % 4 == 2:
             g['callback_fault'] = {'at': rng.choice([1, 2, 3])}
@@ -495,15 +526,17 @@ def build_groups(ctx):
         cfg['parallelization_mode'] = 'populational'
         cfg['crossover'] = [['subtree'], ['exchange_edges'], ['none']][i % 3]   # hash order is examined by the other family
         g = {'name': 'p%d' % i, 'family': 'parallel', 'cfg': cfg}
-        g['runs'] = [('base', None, {'n_jobs': 1}), ('j2', 'CWorkers', {'n_jobs': 2}), ('j4', 'CWorkers', {'n_jobs': 4}),
+        g['runs'] = [('base', None, {'n_jobs': 1}), ('j2', 'CWorkers', {'n_jobs': 2}), ('j3', 'CWorkers', {'n_jobs': 3}),
                      ('i1', None, {'n_jobs': 1, 'isolate_joblib': True}), ('i2', 'CWorkersIsolated', {'n_jobs': 2, 'isolate_joblib': True}),
                      ('j2r', 'CWorkersRepeat', {'n_jobs': 2})]
+        if ctx.tier == 'thorough':
+            g['runs'].append(('j4', 'CWorkers', {'n_jobs': 4}))
         if ctx.tier == 'thorough' and i % 2 == 0:
             g['runs'].append(('i4', 'CWorkersIsolated', {'n_jobs': 4, 'isolate_joblib': True}))
         groups.append(g)
     for i in range(n_api):
         rng = rng_of('facade', i)
-        cfg = {'seed': rng.randrange(10 ** 6), 'num_of_generations': 3, 'pop_size': rng.choice([3, 4]), 'n_initial': 2 + i % 2,
+        cfg = {'seed': (0 if i == 0 else rng.randrange(10 ** 6)), 'num_of_generations': 3, 'pop_size': rng.choice([3, 4]), 'n_initial': 2 + i % 2,
                'multi': i % 2 == 1, 'scheme': SCHEMES[i % 3], 'crossover': [['subtree'], ['one_point'], ['exchange_edges']][i % 3],
                'optimiser': 'facade', 'objective': {'metrics': ['nodes', 'edges'] if i % 2 == 1 else ['nodes'], 'multi': i % 2 == 1}}
         g = {'name': 'f%d' % i, 'family': 'facade', 'cfg': cfg}
@@ -597,10 +630,10 @@ def build_case(group, results):
         cases.append(case_to_coq(None, j2[0], [('CWorkersRepeat', j2r[0])]))
         tags.append(('wrepeat', j2[0], [('CWorkersRepeat', 'j2r', j2r[0])]))
     if group['family'] == 'parallel':
-        j = [(n, x) for cl, n, x in others if n in ('j2', 'j4')]
-        if len(j) == 2:     # 2 workers against 4
-            cases.append(case_to_coq(None, j[0][1], [('CWorkersFrom2', j[1][1])]))
-            tags.append(('from2', j[0][1], [('CWorkersFrom2', 'j4', j[1][1])]))
+        j = [(n, x) for cl, n, x in others if n in ('j2', 'j3', 'j4')]
+        if len(j) >= 2:     # 2 workers against 3 (and 4)
+            cases.append(case_to_coq(None, j[0][1], [('CWorkersFrom2', x) for _, x in j[1:]]))
+            tags.append(('from2', j[0][1], [('CWorkersFrom2', n, x) for n, x in j[1:]]))
         iso = [(cl, n, x) for cl, n, x in others if cl == 'CWorkersIsolated']
         if sub_base is not None and iso:
             cases.append(case_to_coq(None, sub_base, [(cl, x) for cl, _, x in iso]))
@@ -627,24 +660,24 @@ def judge(ctx, group, results, tags, verdicts):
                     'CHashSeed': 'the history depends on PYTHONHASHSEED',
                     'CProgress': 'the history depends on show_progress',
                     'CLogging': 'the history depends on the logging level',
-                    'CWorkers': 'parallel mode: the history depends on n_jobs (1 against 2 / 4)',
-                    'CWorkersFrom2': 'parallel mode: the history depends on n_jobs (2 against 4)',
+                    'CWorkers': 'parallel mode: the history depends on n_jobs (1 against 2 / 3 / 4)',
+                    'CWorkersFrom2': 'parallel mode: the history depends on n_jobs (2 against 3 / 4)',
                     'CWorkersIsolated': 'parallel mode, joblib identifiers kept off the seeded stream: the history depends on n_jobs',
                     'CFacade': 'GOLEM facade: the history depends on repeat / show_progress / logging level',
                     'CWorkersRepeat': 'parallel mode, n_jobs=2: two runs with one seed give different histories'}[cl]
-            if cl == 'CHashSeed':
-                known_ops = set(cfg.get('crossover', [])) & HASH_SENSITIVE_CROSSOVERS
-                key = 'C14.hashseed-dependence' if known_ops else 'C14.hashseed-dependence-other'
-                what += ' (crossover types %s iterate a set of nodes / node pairs: list(set(...)) then random.choice)' % sorted(known_ops) if known_ops else ''
-            if cl in ('CWorkers', 'CWorkersRepeat') and bad and all(strip_nodes(x) == strip_nodes(base_x) for _, x in bad):
+            # a dependence on PYTHONHASHSEED is a plain violation: the three crossover sites that chose from
+            # list(set(...)) were repaired in /repo (b8f358b).  subgraph_crossover still chooses from sets of nodes
+            # (division points); the key below is NOT registered as known - it only names the site in the report
+            if cl == 'CHashSeed' and cfg.get('crossover') == ['subgraph']:
+                key = 'C14.subgraph-crossover-hash-order'
+                what += ' (subgraph_crossover: get_subgraphs / connect_subgraphs pick division points from sets of nodes)'
+            if cl in ('CWorkers', 'CWorkersRepeat') and group['family'] == 'facade' and bad \
+                    and all(strip_nodes(x) == strip_nodes(base_x) for _, x in bad) \
+                    and any(r.get('node_uids_not_in_stream', 0) > 0 for r in results if r['job']['cfg'].get('n_jobs', 1) >= 2):
+                # known finding: facade / networkx adapter, n_jobs >= 2, differences confined to graph-node uids
                 key = 'C14.worker-node-uids'
                 what += ('; the exports coincide except for the uids of graph nodes: with a non-identity adapter the evaluated graph '
                          'is adapted again inside the worker process, whose os.urandom is not the seeded replacement')
-            elif cl == 'CWorkersRepeat' and set(cfg.get('crossover', [])) & HASH_SENSITIVE_CROSSOVERS and \
-                    any(r.get('node_uids_not_in_stream', 0) > 0 for r in results if r['job']['run'] in ('j2', 'j2r')):
-                key = 'C14.hashseed-dependence'
-                what += ('; node uids made inside the worker processes are not seeded (C14.worker-node-uids) and crossover types %s '
-                         'choose from list(set(nodes)), whose order is the order of hash(uid)' % sorted(set(cfg.get('crossover', [])) & HASH_SENSITIVE_CROSSOVERS))
             elif cl == 'CWorkers':
                 ur1 = results[0].get('urandom', {})
                 ur2 = next((r.get('urandom', {}) for r in results if r['job']['clause'] == 'CWorkers'), {})
